@@ -12,14 +12,16 @@
 (* goes on, so one run assesses every property on every event.  A call the  *)
 (* contract does not allow is reported as <<"BREACH", ...>> (harness bug).  *)
 (***************************************************************************)
-EXTENDS RBArena, Json, IOUtils
+EXTENDS KeyExpTree, Json, IOUtils
 
 VARIABLES l,        \* position in the trace
           ents, now,\* layer-0 state
           T,        \* physical state, bound to the snapshot (trees only)
           hasSnap,  \* the collection under test ships snapshots (tree) or observations (list)
           peak,     \* peak number of physically stored entries since reset
-          cap0      \* capacity hint of the instance
+          cap0,     \* capacity hint of the instance
+          stale,    \* T is older than the previous event (that event shipped no snapshot)
+          gaps      \* some event since reset shipped no snapshot: the peak population is unknown
 
 R == INSTANCE KeyExpRef
 
@@ -29,6 +31,8 @@ Has(f) == f \in DOMAIN Ev
 
 V(tag, cond, info) == IF cond THEN TRUE ELSE PrintT("VIOL " \o ToJson(<<tag, l, info>>))
 Breach(info)       == PrintT("BREACH " \o ToJson(<<l, info>>))
+\* diagnostic, never a verdict: the real arena differs from the layer-1 model's next state
+Drift(cond, info)  == IF cond THEN TRUE ELSE PrintT("DRIFT " \o ToJson(<<l, info>>))
 
 FromSnap(s) ==
   [root |-> s.root,
@@ -45,7 +49,7 @@ GrowthOK(TT, pk, c0) == Len(TT.nd) <= 4 * (pk + 1) + Max(c0, 8)
 Structure(TT, pk, c0) ==
   /\ V("WF", WellFormed(TT), "snapshot is not a valid red-black search tree")
   /\ V("POOL", PoolOK(TT), "slots are not partitioned into sentinel / tree / free list")
-  /\ V("GROWTH", GrowthOK(TT, pk, c0), <<"arena slots", Len(TT.nd), "peak stored", pk>>)
+  /\ (~gaps => V("GROWTH", GrowthOK(TT, pk, c0), <<"arena slots", Len(TT.nd), "peak stored", pk>>))
 
 \* refinement mapping on the snapshot: live physical entries = live reference entries
 Refines(TT, S, t) == RangeOK(TT) /\ R!LiveAt(Phys(TT), t) = R!LiveAt(S, t)
@@ -63,14 +67,14 @@ Outcome == Ev.out
 Bind == IF Has("snap") THEN FromSnap(Ev.snap) ELSE T
 
 StepReset ==
-  /\ ents' = {} /\ now' = 0 /\ peak' = 0 /\ cap0' = Ev.cap
+  /\ ents' = {} /\ now' = 0 /\ peak' = 0 /\ cap0' = Ev.cap /\ stale' = FALSE /\ gaps' = FALSE
   /\ hasSnap' = Has("snap")
   /\ T' = IF Has("snap") THEN FromSnap(Ev.snap) ELSE NoTree
   /\ (Has("snap") => Structure(T', 0, Ev.cap) /\ V("CLEARED", RangeOK(T') /\ Phys(T') = {}, "a new tree stores entries"))
 
 StepLoad ==
   /\ T' = FromSnap(Ev.snap)
-  /\ hasSnap' = TRUE
+  /\ hasSnap' = TRUE /\ stale' = FALSE /\ gaps' = FALSE
   /\ cap0' = Ev.cap
   /\ now' = Ev.now
   /\ ents' = IF RangeOK(T') THEN Phys(T') ELSE {}
@@ -80,7 +84,7 @@ StepLoad ==
 \* what every completed, in-contract call is checked for besides its own result
 After(t, S) ==
   /\ V("OUTCOME", ~Has("obspanic") /\ ~Has("rdout"), "a look-up made right after the call (observation sweep / read through the returned handle) panicked")
-  /\ (hasSnap => /\ Structure(T', peak', cap0)
+  /\ (hasSnap /\ Has("snap") => /\ Structure(T', peak', cap0)
                  /\ V("REFINE", Refines(T', S, t), <<"live physical entries differ from the reference at", t>>))
   /\ (~hasSnap /\ Has("obs") => V("REFINE", ObsSet = Visible(S, t), <<"observed", ObsSet, "expected", Visible(S, t)>>))
   /\ (Has("cmp") => V("CMPLIVE", CmpLive(t), <<"an expired key was handed to comparison code at", t, Ev.cmp>>))
@@ -113,7 +117,7 @@ OpOk ==
     [] Ev.op = "clear" ->
          /\ ents' = {} /\ now' = 0
          /\ After(0, {})
-         /\ (hasSnap => /\ V("CLEARED", RangeOK(T') /\ Phys(T') = {}, "entries stored after clear")
+         /\ (hasSnap /\ Has("snap") => /\ V("CLEARED", RangeOK(T') /\ Phys(T') = {}, "entries stored after clear")
                         /\ V("POOLCLR", Len(T'.free) = Len(T'.nd) - 1, "clear did not return every slot to the free list"))
     [] Ev.op = "export" ->
          IF R!CanQuery(Ev.t)
@@ -133,20 +137,35 @@ OpUnwound ==
   LET t  == IF Has("t") THEN Ev.t ELSE now
       S0 == ents
       S1 == IF Ev.op = "ins" THEN ents \cup {[k |-> Ev.k, e |-> Ev.e, v |-> Ev.v]} ELSE ents
-      isBefore == IF hasSnap THEN Refines(T', S0, t) ELSE (Has("obs") /\ ObsSet = Visible(S0, t))
-      isAfter  == IF hasSnap THEN Refines(T', S1, t) ELSE (Has("obs") /\ ObsSet = Visible(S1, t))
+      isBefore == IF hasSnap /\ Has("snap") THEN Refines(T', S0, t) ELSE (Has("obs") /\ ObsSet = Visible(S0, t))
+      isAfter  == IF hasSnap /\ Has("snap") THEN Refines(T', S1, t) ELSE (Has("obs") /\ ObsSet = Visible(S1, t))
   IN /\ now' = t
      /\ ents' = IF isBefore THEN S0 ELSE IF isAfter THEN S1
                 ELSE IF hasSnap /\ RangeOK(T') THEN Phys(T') ELSE S0
      /\ V("TORN", isBefore \/ isAfter, <<"after a panic in callback", Ev.inj, "of", Ev.op, "contents are neither before nor after">>)
-     /\ (hasSnap => /\ V("TORNWF", WellFormed(T'), "tree invalid after a callback panic")
+     /\ (hasSnap /\ Has("snap") => /\ V("TORNWF", WellFormed(T'), "tree invalid after a callback panic")
                     /\ V("TORNPOOL", PoolOK(T'), "slot accounting broken after a callback panic"))
      /\ (Has("cmp") => V("CMPLIVE", CmpLive(t), <<"an expired key was handed to comparison code at", t, Ev.cmp>>))
+
+\* EXACT mode: what the layer-1 model (KeyExpTree over RBArena) does for this call, slot for slot
+ModelNext ==
+  CASE Ev.op = "ins" -> IF Ev.e >= Ev.t THEN XInsert(T, Ev.k, Ev.v, Ev.e, Ev.t)[1] ELSE T
+    [] Ev.op \in {"lt", "le", "by", "get"} -> XQuery(T, Ev.t, Ev.p, 0, Ev.op)[1]
+    [] Ev.op = "clear" -> Clear(T)
+    [] OTHER -> T
+SameArena(A, B) == A.root = B.root /\ A.ucap = B.ucap /\ Len(A.nd) = Len(B.nd) /\ Len(A.free) = Len(B.free)
+                   /\ (\A i \in 1..Len(A.nd) : A.nd[i] = B.nd[i]) /\ (\A i \in 1..Len(A.free) : A.free[i] = B.free[i])
+DriftCheck ==
+  hasSnap /\ Has("snap") /\ ~stale /\ Ev.out = "ok" /\ Ev.op # "export" /\ WellFormed(T) /\ PoolOK(T)
+     => Drift(SameArena(ModelNext, T'), Ev.op)
 
 StepOp ==
   /\ T' = Bind
   /\ hasSnap' = hasSnap /\ cap0' = cap0
+  /\ stale' = (hasSnap /\ ~Has("snap") /\ Ev.op # "export")
+  /\ gaps' = (gaps \/ (hasSnap /\ ~Has("snap") /\ Ev.op # "export"))
   /\ peak' = NewPeak
+  /\ DriftCheck
   /\ CASE Outcome = "ok" -> OpOk
        [] Outcome = "unwound" -> OpUnwound
        [] OTHER -> /\ Unchanged     \* panic / aborted / timeout: no behaviour of the specification
@@ -158,11 +177,11 @@ Step ==
   /\ CASE Ev.ev = "reset" -> StepReset
        [] Ev.ev = "load"  -> StepLoad
        [] Ev.ev = "op"    -> StepOp
-       [] OTHER -> UNCHANGED <<ents, now, T, hasSnap, peak, cap0>> /\ Breach(<<"unknown event", Ev.ev>>)
+       [] OTHER -> UNCHANGED <<ents, now, T, hasSnap, peak, cap0, stale, gaps>> /\ Breach(<<"unknown event", Ev.ev>>)
 
-Init == l = 1 /\ ents = {} /\ now = 0 /\ T = NoTree /\ hasSnap = FALSE /\ peak = 0 /\ cap0 = 0
+Init == l = 1 /\ ents = {} /\ now = 0 /\ T = NoTree /\ hasSnap = FALSE /\ peak = 0 /\ cap0 = 0 /\ stale = FALSE /\ gaps = FALSE
 
-Spec == Init /\ [][Step]_<<l, ents, now, T, hasSnap, peak, cap0>>
+Spec == Init /\ [][Step]_<<l, ents, now, T, hasSnap, peak, cap0, stale, gaps>>
 
 \* every event was consumed
 Accepted ==
